@@ -875,7 +875,10 @@ impl StorageEngine {
                             stop as usize
                         };
                         
-                        if reverse {
+                        if (stop < 0 && len as isize + stop < 0) || start_idx >= len || start_idx > stop_idx {
+                            // A range that is empty after normalisation selects nothing, in either direction
+                            Vec::new()
+                        } else if reverse {
                             let real_start = len.saturating_sub(1).saturating_sub(stop_idx.min(len.saturating_sub(1)));
                             let real_stop = len.saturating_sub(1).saturating_sub(start_idx.min(len.saturating_sub(1)));
                             
